@@ -14,6 +14,7 @@ import (
 // which invocation...) are resolved against the model when the step runs, so
 // that a minimised script (steps dropped) stays meaningful.
 type SOp struct {
+	QSize     int // outbound queue size of the session (0: 64)
 	Kind      string
 	Slot      int
 	Realm     string
@@ -163,6 +164,72 @@ func (q *Seq) Exec(op SOp) bool {
 	r := q.Realms[string(s.Realm)]
 	m := r.M
 	what := op.String()
+	if op.Kind == "refburst" {
+		// Several requests the Authorizer will refuse, handed over back to
+		// back without waiting for the answers (a pipelining client): each
+		// must be answered with its own ERROR - or, if the session's queue
+		// was full at that moment, not at all (the router reports that) -
+		// and none may have any effect (the model does not change).
+		if q.Authz == nil || (s.Local && !q.LocalAuthz) {
+			return false
+		}
+		authid := q.MS[idx].Details["authid"]
+		uris := []string{"a", "a.b", "b", "p.a", "p.b", "p.a.b", "t.x", "a.c", "p.a.x", "a.b.c"}
+		want := 2 + op.Var%3
+		var msgs []wamp.Message
+		var exp []Exp
+		for i := 0; len(msgs) < want && i < 80; i++ {
+			u := wamp.URI(uris[(op.K+i)%len(uris)])
+			var msg wamp.Message
+			switch (op.K + i/3) % 4 {
+			case 0:
+				msg = &wamp.Subscribe{Options: wamp.Dict{}, Topic: u}
+			case 1:
+				msg = &wamp.Register{Options: wamp.Dict{}, Procedure: u}
+			case 2:
+				msg = &wamp.Publish{Options: wamp.Dict{"acknowledge": true}, Topic: u, Arguments: wamp.List{"burst"}}
+			default:
+				msg = &wamp.Call{Options: wamp.Dict{}, Procedure: u, Arguments: wamp.List{"burst"}}
+			}
+			dec := q.Authz.Decide(authid, msg)
+			if dec != authzDeny && dec != authzFail {
+				continue
+			}
+			rq := s.NextReq()
+			switch x := msg.(type) {
+			case *wamp.Subscribe:
+				x.Request = rq
+			case *wamp.Register:
+				x.Request = rq
+			case *wamp.Publish:
+				x.Request = rq
+			case *wamp.Call:
+				x.Request = rq
+			}
+			uri := "wamp.error.not_authorized"
+			if dec == authzFail {
+				uri = "wamp.error.authorization_failed"
+			}
+			msgs = append(msgs, msg)
+			exp = append(exp, Exp{To: idx, Text: errText(msg.MessageType(), rq, uri)})
+		}
+		if len(msgs) < 2 {
+			return false
+		}
+		before := q.W.Log.authzDrops
+		for _, msg := range msgs {
+			if !s.Send(msg) {
+				c.Violf("step %d (%s): router did not take the message", q.Step, what)
+				return true
+			}
+		}
+		q.Settle()
+		c.Probe("authz_refused_pipelined")
+		q.optionalTo = map[int]int{idx: q.W.Log.authzDrops - before}
+		q.Compare(r, what, exp, nil)
+		q.optionalTo = nil
+		return true
+	}
 	// the message gets private copies of the payload: an in-process recipient
 	// that modifies what it receives must not reach the model's copy
 	modelArgs, modelKw := op.Args, op.Kw
@@ -498,7 +565,11 @@ func (q *Seq) execJoin(op SOp) bool {
 		s = q.W.NewWSSess(c, name, wamp.URI(realm), sz, 64, 64, 0, hello)
 		c.Probe("session_over_websocket")
 	default:
-		s = q.W.NewSess(name, wamp.URI(realm), op.Local, 64, hello)
+		qs := 64
+		if op.QSize > 0 {
+			qs = op.QSize
+		}
+		s = q.W.NewSess(name, wamp.URI(realm), op.Local, qs, hello)
 	}
 	idx := len(q.Slots)
 	q.Slots = append(q.Slots, s)
